@@ -309,6 +309,12 @@ def rule_output_writer(ctx):
                    f"whole column taken when `{t}`: an index selection of the same length in another order gets the values of other elements", fi.loc(n))
     if not found:
         ctx.fail("OutputWriter._log: positional fast path not found")
+    fds = ctx.repo.func("pandapower.timeseries.data_sources.frame_data:DFData.get_time_step_value")
+    isn = [st for st in ast.walk(fds.node) if isinstance(st, ast.Assign) and norm(st.targets[0], 12) == "isnumber" and "issubdtype" in norm(st.value, 80)]
+    okn = bool(isn) and norm(isn[0].value, 80).replace(" ", "") == "np.issubdtype(res.dtype,np.number)"
+    ctx.ob(R, "pandapower.timeseries.data_sources.frame_data::DFData.get_time_step_value::scale-all-numbers", okn,
+           "the scale factor is applied to every numeric profile (integer columns included), as in the scalar path" if okn else
+           f"`isnumber = {norm(isn[0].value, 70) if isn else '?'}`: integer profile columns are written to the net unscaled", fds.loc(isn[0]) if isn else fds.loc())
     fp = ctx.repo.func(f"{OW}:OutputWriter._init_ppc_logging")
     opt = None
     for st in ast.walk(fp.node):
@@ -354,6 +360,12 @@ def rule_batch_sibling(ctx):
         t = norm(st.value, 200).replace(" ", "") if st is not None else ""
         ok = st is not None and vn in t and "sqrt(3)" in t and "/sn_mva*100" in t
         ctx.ob(R, f"{BR_}::get_batch_trafo_results::{side}", ok, f"{side} = {t}", fb.loc(st) if st is not None else fb.loc())
+    # power-based loading: the larger of the two terminal powers, as in the regular writer (np.max over both sides)
+    pbranch = next((n for n in ast.walk(fb.node) if isinstance(n, ast.If) and "trafo_loading" in norm(n.test, 60) and "'power'" in norm(n.test, 60).replace('"', "'")), None)
+    lt = next((norm(st.value, 100).replace(" ", "") for st in (pbranch.body if pbranch else []) if isinstance(st, ast.Assign) and norm(st.targets[0], 12) == "ld_trafo"), "")
+    sm = assign(fb, "s_mva")
+    oks = lt.startswith("s_mva/sn_mva*100") and sm is not None and norm(sm.value, 100).replace(" ", "").startswith("maximum(s_abs[0][:,f:t],s_abs[1][:,f:t])")
+    ctx.ob(R, f"{BR_}::get_batch_trafo_results::power-loading", oks, f"ld_trafo = {lt}; s_mva = {norm(sm.value, 70) if sm is not None else '?'}", fb.loc(pbranch) if pbranch is not None else fb.loc())
     sn = assign(fb, "sn_mva")
     ctx.ob(R, f"{BR_}::get_batch_trafo_results::sn_mva", sn is not None and norm(sn.value, 80).replace(" ", "").replace('"', "'") == "net['trafo']['sn_mva'].values",
            f"sn_mva = {norm(sn.value, 60) if sn is not None else '?'}", fb.loc())
@@ -367,6 +379,8 @@ def variants(repo):
     return [
         V("log fast path chosen by length", "pandapower/timeseries/output_writer.py", replace_once("if net[table].index.equals(pd.Index(index)):", "if len(index) == len(net[table]):"), "OW-LOG"),
         V("sizing ppc without connectivity check", "pandapower/timeseries/output_writer.py", replace_once("enforce_q_lims=False, check_connectivity=True,", "enforce_q_lims=False, check_connectivity=False,"), "OW-LOG"),
+        V("batch power loading from the hv side only", "pandapower/timeseries/read_batch_results.py", replace_once("        ld_trafo = s_mva / sn_mva * 100.", "        ld_trafo = s_abs[0][:, f:t] / sn_mva * 100."), "power-loading"),
+        V("integer profiles not scaled", "pandapower/timeseries/data_sources/frame_data.py", replace_once("isnumber = np.issubdtype(res.dtype, np.number)", "isnumber = np.issubdtype(res.dtype, np.floating)"), "scale-all-numbers"),
         V("batch line loading without derating factor", "pandapower/timeseries/read_batch_results.py", replace_once('i_max = line_df["max_i_ka"].values * line_df["df"].values * line_df["parallel"].values', 'i_max = line_df["max_i_ka"].values * line_df["parallel"].values'), "BATCH-SIBLING"),
         V("batch trafo loading without parallel", "pandapower/timeseries/read_batch_results.py", replace_once('loading_percent = ld_trafo / net["trafo"]["parallel"].values / net["trafo"]["df"].values', 'loading_percent = ld_trafo / net["trafo"]["df"].values'), "BATCH-SIBLING"),
         V("trafo3w rebuilt only without trafo", "pandapower/powerflow.py", in_function("_recycled_powerflow", replace_once('        if "trafo3w" in lookup:', '        elif "trafo3w" in lookup:')), "RECYCLE-RERUN"),
